@@ -318,7 +318,13 @@ def initialize_lua(ctx: "Wtp") -> None:
     def filter_attribute_access(
         obj: Any, attr_name: str, is_setting: bool
     ) -> str:
-        if isinstance(attr_name, str) and not attr_name.startswith("_"):
+        if (
+            isinstance(attr_name, str)
+            and not attr_name.startswith("_")
+            # .func/.args/.keywords of the helpers handed to Lua would
+            # expose the Wtp context (and through it the page database)
+            and not isinstance(obj, partial)
+        ):
             return attr_name
         raise AttributeError("access denied")
 
